@@ -174,6 +174,17 @@ def c17_oracle_selfcheck(res, rng):
         res.count("oracle_selfcheck_points")
         if not abs(u - v) <= 1e-12 * max(v, TINY):
             res.fail("correspondence", "C17: the model's two evaluators of Phi disagree at %r: Float %r, big-float %r" % (x, u, v), dict(type="cdf", x=x))
+    # the big-float Phi switches from the convergent series to the asymptotic expansion of erfc at |x| = 22.63: both are evaluated
+    # where both apply (the series needs ~1.5 x^2/2 extra bits, so only up to |x| = 40 here) and must agree to 1e-40
+    import symtrace
+    ys = [s_ * (22.63 + rng.uniform(0.0, 17.0)) for s_ in (-1, -1, -1, 1) for _ in range(4)] + [-22.63, -22.7, -38.4, -40.0, 22.7]
+    for x, o in zip(ys, drv.run(["HPHI2 %s" % f2h(x) for x in ys])):
+        p_ = o.split(" ")
+        a_, b_ = symtrace.parse_bf(p_[1]), symtrace.parse_bf(p_[2])
+        res.count("oracle_asymptotic_vs_series_points")
+        if b_ == 0 or abs(a_ - b_) / abs(b_) > 1e-40:
+            res.fail("correspondence", "C17: the big-float Phi's asymptotic branch and its convergent series disagree at %r: %r vs %r" % (x, float(a_), float(b_)),
+                     dict(type="cdf", x=x))
 
 
 def c17(res):
